@@ -138,6 +138,8 @@ class World:
             prog, models = eng.prog, eng.models
             eng.prog = None
             eng.models = None
+            hooks = (eng.call_hooks, eng.post_call_hooks, eng.edge_hooks)
+            eng.call_hooks, eng.post_call_hooks, eng.edge_hooks = [], [], []
             tmp = pk + ".tmp%d" % os.getpid()
             with open(tmp, "wb") as f:
                 pickle.dump(eng, f, protocol=pickle.HIGHEST_PROTOCOL)
@@ -146,10 +148,17 @@ class World:
             sys.stderr.write("note: could not cache run %s: %s\n" % (name, e))
         finally:
             eng.prog, eng.models = prog, models
+            try:
+                eng.call_hooks, eng.post_call_hooks, eng.edge_hooks = hooks
+            except NameError:
+                pass
         return eng
 
     def engine(self, opts=None):
-        return Engine(self.lib, self.models, opts=opts or {})
+        from . import monitors
+        eng = Engine(self.lib, self.models, opts=opts or {})
+        monitors.install(eng)
+        return eng
 
     def _compute(self, name):
         prog = self.lib
